@@ -255,7 +255,7 @@ func TestRegression_LeafReducesTwice(t *testing.T) {
 	// six shards on one leaf: the race is per shard
 	e, ls := fixture(t, d, []string{"root"}, &layoutSpec{Shards: 6, Nodes: [][]int{{0, 1, 2, 3, 4, 5}}})
 	sql := "select sum(s1), max(la), min(la), s2 from cpu where " + fullRange() + " group by host,time(300s)"
-	q := &querySpec{Metric: 0, Items: []selItem{{"s1", "sum"}, {"la", "max"}, {"la", "min"}, {"s2", ""}}, StartS: -60, EndS: 420, Interval: 300, GroupBy: []string{"host"}}
+	q := &querySpec{Metric: 0, Items: []selItem{{Field: "s1", Func: "sum"}, {Field: "la", Func: "max"}, {Field: "la", Func: "min"}, {Field: "s2"}}, StartS: -60, EndS: 420, Interval: 300, GroupBy: []string{"host"}}
 	if q.sql(d) != sql {
 		t.Fatalf("harness: %s", q.sql(d))
 	}
